@@ -33,6 +33,11 @@ ASSUMPTIONS = [
 MSG = codec.MSG_MOD
 
 
+def smf_sym(name, umax, lo=0):
+    from ..bits import Sym
+    return AV.of_sym(Sym(name, umax), lo)
+
+
 def _interp(ctx, item_dom):
     accepted = item_dom.accepted if item_dom is not None else IntSet.range(0, 127)
 
@@ -231,19 +236,75 @@ def r02_5(ctx):
     ctx.floor('R02.5', n, 1)
 
 
-def r02_6(ctx):
-    """from_bytes does not disable checking and stores only the decoded dict."""
+def r02_7(ctx):
+    """from_hex(text) behaves exactly as from_bytes(the bytes the text denotes): for status bytes of every family and 0..3 data
+    bytes ranging over 0..255 (a hex pair cannot denote anything else) the two entry points have the same set of outcomes -
+    same messages, same exception types.  So everything R02.1-R02.3 establish for from_bytes holds for from_hex."""
+    from .. import strdom
+    fn_cd, item_fn, item_dom = codec.data_byte_domain(ctx)
+    cls = ctx.p.cls(MSG, 'Message')
     fb = ctx.fn(ctx.p.func(MSG, 'Message.from_bytes'))
+    fh = ctx.fn(ctx.p.func(MSG, 'Message.from_hex'))
+    ai = _interp(ctx, item_dom)
+    strdom.install(ai)
+    w = ctx.where(fh)
     n = 0
-    for c in astq.calls(fb.node):
-        if astq.callee_qname(ctx.p, fb, c) == 'mido/messages/decode.py::decode_message':
-            n += 1
-            ctx.call_sites += 1
-            chk = astq.arg_or_kw(c, 2, 'check')
-            ctx.require(chk is None or astq.const_value(chk) is True, 'R02.3', 'from_bytes.check', ctx.where(fb, c),
-                        'from_bytes passes check= to decode_message (range checking may be disabled)',
-                        construct=f'{fb.qname}::check')
-    ctx.floor('R02.6', n, 1)
+
+    def norm(outs):
+        res = set()
+        for o in outs:
+            if o.kind == 'return':
+                v = o.value
+                res.add(('return', repr(sorted((k, repr(x)) for k, x in v.attrs.items())) if isinstance(v, AObj) else repr(v)))
+            else:
+                res.add(('raise', o.exc))
+        return res
+    for first in (0x80, 0x9f, 0xa5, 0xb0, 0xc3, 0xd1, 0xe0, 0xf0, 0xf1, 0xf2, 0xf3, 0xf4, 0xf6, 0xf7, 0xf8, 0xfe, 0x40, 0x00):
+        for ndata in range(0, 4):
+            for lo, hi, dl in ((0, 255, 'any byte'), (128, 255, 'bytes above 127')):
+                if ndata == 0 and lo:
+                    continue
+                data = [smf_sym(f'h{i}', hi - lo, lo) for i in range(ndata)]
+                shapes = [[first] + data]
+                if first == 0xf0:
+                    shapes.append([first] + data + [0xf7])
+                for shape in shapes:
+                    n += 1
+                    segs = []
+                    for i, b in enumerate(shape):
+                        if i:
+                            segs.append(' ')
+                        segs.append(f'{b:02X}' if isinstance(b, int) else strdom.Hex2(b))
+                    text = strdom.norm(strdom.SStr(segs))
+                    tm = Opaque('t')
+                    ai.check_data_calls = []
+                    outs_h = ai.explore(lambda: ai.call_function(fh, [ClassRef(cls), text], {'time': tm}))
+                    ai.check_data_calls = []
+                    outs_b = ai.explore(lambda: ai.call_function(fb, [ClassRef(cls), AList(list(shape), 'bytearray')], {'time': tm}))
+                    a, b = norm(outs_h), norm(outs_b)
+                    lab = f'{first:#04x} + {ndata} data ({dl}){" + F7" if shape[-1] == 0xf7 and len(shape) > 1 and first == 0xf0 else ""}'
+                    ctx.require(a == b, 'R02.7', f'from_hex({lab})', w,
+                                f'from_hex gives {sorted(a)[:3]} where from_bytes on the same bytes gives {sorted(b)[:3]}',
+                                construct=f'{fh.qname}::agrees-with-from_bytes')
+    # separators and whitespace
+    for sep, text, label in ((None, '90\t3C\n40', 'tab and newline between pairs'), (':', '90:3C:40', "sep=':'"), ('--', '90--3C--40', "sep='--'")):
+        n += 1
+        kw = {'time': 5}
+        if sep is not None:
+            kw['sep'] = sep
+        outs = ai.explore(lambda: ai.call_function(fh, [ClassRef(cls), text], dict(kw)))
+        ok = len(outs) == 1 and outs[0].kind == 'return' and isinstance(outs[0].value, AObj) and \
+            {k: outs[0].value.attrs.get(k) for k in ('type', 'channel', 'note', 'velocity', 'time')} == \
+            {'type': 'note_on', 'channel': 0, 'note': 60, 'velocity': 64, 'time': 5}
+        ctx.require(ok, 'R02.7', f'from_hex({label})', w, f'{text!r} gives {outs}', construct=f'{fh.qname}::separators')
+    for bad, label in (('9', 'odd digit'), ('90 3C 4', 'trailing single digit'), ('90 3G 40', 'non-hex digit'), ('', 'empty text')):
+        n += 1
+        outs = ai.explore(lambda: ai.call_function(fh, [ClassRef(cls), bad], {}))
+        ctx.require(bool(outs) and all(o.kind == 'raise' and o.exc == 'ValueError' for o in outs), 'R02.7', f'from_hex({label})', w,
+                    f'{bad!r} gives {outs}; expected ValueError', construct=f'{fh.qname}::malformed-text')
+    ctx.floor('R02.7', n, 100)
+    for q in ai.inlined:
+        ctx.functions.add(q)
 
 
-RULES = [('R02.1', r02_1), ('R02.4', r02_4), ('R02.5', r02_5), ('R02.6', r02_6)]
+RULES = [('R02.1', r02_1), ('R02.4', r02_4), ('R02.5', r02_5), ('R02.7', r02_7)]
